@@ -36,6 +36,11 @@ def reset_globals():
 
 
 def clear_caches(db):
+    """Back to the state right after registration.  The library's own invalidation routine is used when
+    it exists, so that caches a change adds (and hooks into that routine) are reset as well."""
+    clear = getattr(db, "_ClearCaches", None)
+    if clear is not None:
+        clear()
     db.quantities_cache.clear()
     db._category_unit_valid.clear()
     Quantity._EMPTY_QUANTITY = None
@@ -80,6 +85,8 @@ def installed(db):
 @contextlib.contextmanager
 def world(name):
     with installed(get(name)) as db:
+        if WARM:
+            warm_up(db)
         yield db
 
 
@@ -130,3 +137,82 @@ def mini(kind="base"):
     db.AddCategory("time", "time")
     db.AddCategory("temperature", "temperature")
     return db
+
+
+# -- the "warm" regime ---------------------------------------------------------------------------
+# In the thorough tier every check runs twice: on cold caches and again on a database that has
+# already served a broad pack of requests another part of a program could have issued (WARM is set
+# by the runner before the second pass; forked workers inherit it).  State kept too coarsely - a
+# cache keyed by the unit label alone, a memo that is not invalidated, a class-level attribute left
+# behind - is then poisoned by operations that are outside the check's own alphabet.
+WARM = False
+
+
+def warm_up(db):
+    """Requests that leave the registry unchanged; failures are expected and ignored."""
+    import numpy as np
+
+    from barril.units import Array, FractionScalar, ObtainQuantity, Scalar
+
+    def attempt(f):
+        try:
+            f()
+        except Exception:
+            pass
+
+    labels = list(db.unit_to_unit_info)
+    reps = {}
+    for u, i in db.unit_to_unit_info.items():
+        reps.setdefault(i.quantity_type, u)
+    if "Unknown" in db.quantity_types and "Unknown" in db.categories_to_quantity_types:
+        uq = ObtainQuantity("<unknown>", "Unknown")
+        us, ua = Scalar(uq, 12.5), Array(uq, np.array([12.5, 1.0]))
+        for v in labels:
+            attempt(lambda: us.GetValue(v))
+            attempt(lambda: ua.GetValues(v))
+            attempt(lambda: uq.Convert([3.0], v))
+            attempt(lambda: db.Convert("Unknown", "<unknown>", v, 1.0))
+            attempt(lambda: db.Convert("Unknown", v, "<unknown>", 1.0))
+    cats = {}
+    for c, info in db.categories_to_quantity_types.items():
+        cats.setdefault(info.quantity_type, []).append(c)
+    qts = list(db.quantity_types)
+    for k, qt in enumerate(qts):
+        units = db.GetUnits(qt)
+        foreign = reps[qts[(k + 1) % len(qts)]]
+        fcat = db.GetDefaultCategory(foreign)
+        for v in units:
+            # rejected cross-type requests that name this unit
+            attempt(lambda: Scalar(1.0, foreign).GetValue(v))
+            attempt(lambda: db.Convert(db.GetQuantityType(foreign), foreign, v, 1.0))
+            if fcat:
+                attempt(lambda: Scalar(1.0, v, fcat))
+                attempt(lambda: ObtainQuantity(v, fcat))
+                attempt(lambda: db.CheckCategoryUnit(fcat, v))
+            # the same unit with every category of its type, and with the type name as category
+            for c in cats.get(qt, []):
+                attempt(lambda: ObtainQuantity(v, c))
+                attempt(lambda: db.CheckCategoryUnit(c, v))
+            attempt(lambda: db.GetInfo(qt, v))
+            attempt(lambda: ObtainQuantity(v, None, "a caption"))
+        # derived quantities and conversions with exponents on the first units of the type
+        for u in units[:3]:
+            for v in units[:3]:
+                attempt(lambda: (Scalar(2.0, u) * Scalar(3.0, u)) * Scalar(5.0, v))
+                attempt(lambda: (Scalar(2.0, u) * Scalar(3.0, u)) + (Scalar(5.0, v) * Scalar(5.0, v)))
+                attempt(lambda: (1.0 / Scalar(2.0, u)) - (1.0 / Scalar(5.0, v)))
+                attempt(lambda: Array(np.array([2.0, 3.0]), u) * (Array([5.0, 7.0], v) * Array([5.0, 7.0], v)))
+                attempt(lambda: FractionScalar(1.5, u).GetValue(v))
+                attempt(lambda: db.Convert(qt, [(u, 2)], [(v, 2)], 3.0))
+    try:
+        from barril.units.unit_database import _LEGACY_TO_CURRENT
+
+        for u in labels:
+            for legacy, current in _LEGACY_TO_CURRENT:
+                if current in u:
+                    spelled = u.replace(current, legacy)
+                    attempt(lambda: ObtainQuantity(spelled))
+                    attempt(lambda: Scalar(1.0, spelled).GetValue(u))
+                    attempt(lambda: db.GetDefaultCategory(spelled))
+    except ImportError:
+        pass
